@@ -38,22 +38,25 @@ type task struct {
 	Skip    [][2]int64 `json:"skip,omitempty"`    // (case index, entry index) pairs known to kill the worker
 	// lpseq
 	Prefix [][]int `json:"prefix,omitempty"`
+	Hist   []int64 `json:"hist,omitempty"` // lphist: frame history (full frame space), checks on the last frame
 	N      int     `json:"n,omitempty"`
 }
 
 type violation struct {
-	Clause string `json:"clause"`
-	Key    string `json:"key"`
-	Detail string `json:"detail"`
-	Entry  string `json:"entry"`
-	EntryI int    `json:"entry_i"`
-	Family int    `json:"family"`
-	Index  int64  `json:"index"`
-	Case   string `json:"case"`
-	Input  string `json:"input_hex"`
-	Len    int    `json:"len"`
-	Alloc  uint64 `json:"alloc,omitempty"`
-	NeedAt bool   `json:"need_attr,omitempty"` // mem violation whose allocation site is still to be attributed
+	Clause string  `json:"clause"`
+	Key    string  `json:"key"`
+	Detail string  `json:"detail"`
+	Entry  string  `json:"entry"`
+	EntryI int     `json:"entry_i"`
+	Family int     `json:"family"`
+	Index  int64   `json:"index"`
+	Case   string  `json:"case"`
+	Input  string  `json:"input_hex"`
+	Len    int     `json:"len"`
+	Alloc  uint64  `json:"alloc,omitempty"`
+	Hist   []int64 `json:"hist,omitempty"` // link-service histories: frame indices (full frame space)
+	Cfg    int     `json:"cfg,omitempty"`
+	NeedAt bool    `json:"need_attr,omitempty"` // mem violation whose allocation site is still to be attributed
 	rec    any
 }
 
@@ -183,18 +186,31 @@ func isRepoFrame(fn string) bool {
 	return strings.HasPrefix(fn, modPrefix) && !strings.Contains(fn, "VerifC04")
 }
 
+// isPrimitive: tiny helpers that only fail because of what their caller passed in; the caller is
+// the root cause and is made part of the site.
+func isPrimitive(fn string) bool {
+	return strings.Contains(fn, "/std/encoding.TLNum.") || strings.Contains(fn, "/std/encoding.Nat.") || strings.HasSuffix(fn, "/std/encoding.ParseTLNum")
+}
+
 func siteFromPCs(pcs []uintptr) (site, where string) {
 	fr := runtime.CallersFrames(pcs)
 	for {
 		f, more := fr.Next()
 		if isRepoFrame(f.Function) {
-			return siteOf(f.Function, f.File, f.Line), fmt.Sprintf("%s:%d", f.File, f.Line)
+			if site == "" {
+				site, where = siteOf(f.Function, f.File, f.Line), fmt.Sprintf("%s:%d", f.File, f.Line)
+				if !isPrimitive(f.Function) {
+					return
+				}
+			} else {
+				return site + " <- " + siteOf(f.Function, f.File, f.Line), where + " <- " + fmt.Sprintf("%s:%d", f.File, f.Line)
+			}
 		}
 		if !more {
 			break
 		}
 	}
-	return "", ""
+	return
 }
 
 var reTraceFn = regexp.MustCompile(`^(github\.com/named-data/ndnd/[^\s(]+(?:\(\*?\w+\))?[^\s(]*)\(`)
@@ -216,10 +232,17 @@ func siteFromTrace(trace string) (site, where string) {
 		if m := reTraceLoc.FindStringSubmatch(lines[i+1]); m != nil {
 			var ln int
 			fmt.Sscan(m[2], &ln)
-			return siteOf(fn, m[1], ln), m[1] + ":" + m[2]
+			if site == "" {
+				site, where = siteOf(fn, m[1], ln), m[1]+":"+m[2]
+				if !isPrimitive(fn) {
+					return
+				}
+			} else {
+				return site + " <- " + siteOf(fn, m[1], ln), where + " <- " + m[1] + ":" + m[2]
+			}
 		}
 	}
-	return "", ""
+	return
 }
 
 // ---- evaluation ----
@@ -343,6 +366,7 @@ func skipSet(t task) map[[2]int64]bool {
 }
 
 type acc struct {
+	trivial   int64
 	kinds     [16]int64
 	lastEntry int
 	lastSig   uint32
@@ -401,6 +425,9 @@ func (a *acc) note(ei int, sig uint32) {
 		kind = uint32(len(sigNames))
 	}
 	a.kinds[kind]++
+	if kind == sigEOF || (kind == sigFailToParse && (sig>>8)&0xffff == 0) {
+		a.trivial++
+	}
 	if ei == a.lastEntry && sig == a.lastSig {
 		return
 	}
@@ -734,6 +761,8 @@ func workerMain(markerPath string) {
 				runLp1(t, a)
 			case "lpseq":
 				runLpSeq(t, a)
+			case "lphist":
+				runLpHist(t, a)
 			}
 			for k := range a.distinct {
 				a.res.Distinct = append(a.res.Distinct, k)
@@ -742,7 +771,7 @@ func workerMain(markerPath string) {
 			if a.res.Extra == nil {
 				a.res.Extra = map[string]any{}
 			}
-			a.res.Extra["trips"], a.res.Extra["precise"] = a.trips, a.precise
+			a.res.Extra["trips"], a.res.Extra["precise"], a.res.Extra["trivial"] = a.trips, a.precise, a.trivial
 			mark(0, 0, 0)
 			if err := enc.Encode(&a.res); err != nil {
 				os.Exit(3)
